@@ -1313,4 +1313,283 @@ pub fn run(ctx: &mut Ctx) {
     run_sbuf(ctx);
     run_zero_copy(ctx);
     run_huge(ctx);
+    run_gaps(ctx);
+}
+
+// ---------------------------------------------------------------------------------------------
+// gap_* families: shortcut constructors, accessors, access to the inner reader / writer, peek / zero-copy reads of the
+// adaptive mmap input, MemoryMappedOutput::open + seek, incremental multi-range construction, buffered-data validators,
+// migrations. Oracles: the byte models above, or equivalence with an API the families above already check.
+// ---------------------------------------------------------------------------------------------
+use zipora::io::{AccessPattern, InputStrategy, MigrationRegistry};
+
+fn crc32c_model(data: &[u8]) -> u32 { let mut crc = !0u32; for &b in data { crc ^= b as u32; for _ in 0..8 { crc = if crc & 1 != 0 { (crc >> 1) ^ 0x82F6_3B78 } else { crc >> 1 }; } } !crc }
+/// text-like stream: valid UTF-8 with multi-byte characters (buffer boundaries split characters), sometimes one bad byte, sometimes random
+fn utf8ish_data(c: &mut Case, max: usize) -> Vec<u8> {
+    let kind = c.rng.below(4); let target = c.rng.usize_below(max + 1);
+    let mut d: Vec<u8> = if kind == 0 { c.rng.bytes(target) } else { let mut s = String::new(); while s.len() < target { s.push_str(&arb_string(&mut c.rng)); s.push('é'); } s.into_bytes() };
+    if kind == 1 && !d.is_empty() { let k = c.rng.usize_below(d.len()); d[k] = 0xFF; }
+    c.input("data", &d); c.set_nontrivial(d.len() >= 2); d
+}
+fn same_out<T: PartialEq>(a: &Result<ZR<T>, crate::ctx::PanicInfo>, b: &Result<ZR<T>, crate::ctx::PanicInfo>) -> bool { match (a, b) { (Ok(Ok(x)), Ok(Ok(y))) => x == y, (Ok(Err(_)), Ok(Err(_))) => true, (Err(_), Err(_)) => true, _ => false } }
+fn out_kind<T>(a: &Result<ZR<T>, crate::ctx::PanicInfo>) -> &'static str { match a { Ok(Ok(_)) => "Ok", Ok(Err(_)) => "Err", Err(_) => "panic" } }
+fn read_one<I: DataInput>(inp: &mut I, it: &Item) -> Result<Item, Fail> {
+    Ok(match it { Item::U8(_) => Item::U8(zok!("read_u8", inp.read_u8())), Item::U16(_) => Item::U16(zok!("read_u16", inp.read_u16())), Item::U32(_) => Item::U32(zok!("read_u32", inp.read_u32())), Item::U64(_) => Item::U64(zok!("read_u64", inp.read_u64())),
+        Item::Var(_) => Item::Var(zok!("read_var_int", inp.read_var_int())), Item::Bytes(b) => Item::Bytes(zok!("read_vec", inp.read_vec(b.len()))), Item::LpBytes(_) => Item::LpBytes(zok!("read_length_prefixed_bytes", inp.read_length_prefixed_bytes())),
+        Item::Str(s) => Item::Str(zok!("read_string", inp.read_string(s.len()))), Item::LpStr(_) => Item::LpStr(zok!("read_length_prefixed_string", inp.read_length_prefixed_string())) })
+}
+macro_rules! endian_ctor { ($c:expr, $t:ty, $raw:expr) => {{ let v: $t = $raw as $t; const N: usize = std::mem::size_of::<$t>();
+    for (io, e, want) in [(EndianIO::<$t>::little_endian(), Endianness::Little, v.to_le_bytes()), (EndianIO::<$t>::big_endian(), Endianness::Big, v.to_be_bytes()), (EndianIO::<$t>::native_endian(), Endianness::Native, v.to_ne_bytes())] {
+        ensure!(io.endianness() == e, "endianness", "EndianIO<{}> shortcut constructor for {e:?} reports {:?}", stringify!($t), io.endianness());
+        let mut b = [0x55u8; N]; zok!("write_to_bytes", io.write_to_bytes(v, &mut b)); ensure!(b == want, "endian_io_bytes", "EndianIO<{}> {e:?} shortcut wrote {} want {}", stringify!($t), gen::hex(&b), gen::hex(&want));
+        let full = EndianIO::<$t>::new(e); let mut b2 = [0x55u8; N]; zok!("write_to_bytes", full.write_to_bytes(v, &mut b2)); ensure!(b2 == b, "shortcut_vs_new", "EndianIO<{}> {e:?}: shortcut and new() write different bytes", stringify!($t));
+        ensure!(zok!("read_from_bytes", io.read_from_bytes(&b)) == v, "endian_roundtrip", "EndianIO<{}> {e:?} shortcut read(write({v}))", stringify!($t)); $c.ev(4);
+    } }} }
+
+fn run_gaps(ctx: &mut Ctx) {
+    // ---- shortcut constructors: byte-identical to new(strategy) --------------------------------------------------
+    for idx in 0..ctx.n(150, 5000) as u64 {
+        ctx.case("vs/ctor_shortcuts", "gap_equiv", idx, |c| {
+            let fam = c.rng.below(SEQ_FAMS as u64) as u32; let v = seq_u64(&mut c.rng, fam); let w = seq_i64(&mut c.rng, fam); c.input("u64s", &u64s_bytes(&v)); c.input("i64s", &i64s_bytes(&w)); c.set_nontrivial(!v.is_empty() || !w.is_empty());
+            let pairs: Vec<(&str, VarIntEncoder, VarIntStrategy)> = vec![("leb128", VarIntEncoder::leb128(), VarIntStrategy::Leb128), ("zigzag", VarIntEncoder::zigzag(), VarIntStrategy::Zigzag), ("delta", VarIntEncoder::delta(), VarIntStrategy::Delta),
+                ("group_varint", VarIntEncoder::group_varint(), VarIntStrategy::GroupVarint), ("prefix_free", VarIntEncoder::prefix_free(), VarIntStrategy::PrefixFree), ("compact", VarIntEncoder::compact(), VarIntStrategy::Compact), ("simd", VarIntEncoder::simd(), VarIntStrategy::Simd)];
+            for (nm, sc, st) in &pairs {
+                ensure!(sc.strategy() == *st, "strategy", "VarIntEncoder::{nm}().strategy() = {:?}", sc.strategy());
+                let full = VarIntEncoder::new(*st);
+                macro_rules! eqv { ($what:expr, $a:expr, $b:expr) => {{ let (a, b) = (catch(|| $a), catch(|| $b)); ensure!(same_out(&a, &b), "shortcut_vs_new", "VarIntEncoder::{nm}() and new({st:?}) disagree on {}: {} vs {}", $what, out_kind(&a), out_kind(&b)); c.ev(1); a }} }
+                if let Ok(Ok(bytes)) = eqv!("encode_u64_sequence", sc.encode_u64_sequence(&v), full.encode_u64_sequence(&v)) { eqv!("decode_u64_sequence", sc.decode_u64_sequence(&bytes), full.decode_u64_sequence(&bytes)); }
+                if let Ok(Ok(bytes)) = eqv!("encode_i64_sequence", sc.encode_i64_sequence(&w), full.encode_i64_sequence(&w)) { eqv!("decode_i64_sequence", sc.decode_i64_sequence(&bytes), full.decode_i64_sequence(&bytes)); }
+                for &x in v.iter().take(4) { if let Ok(Ok(bytes)) = eqv!("encode_u64", sc.encode_u64(x), full.encode_u64(x)) { eqv!("decode_u64", sc.decode_u64(&bytes), full.decode_u64(&bytes)); } }
+                for &x in w.iter().take(4) { if let Ok(Ok(bytes)) = eqv!("encode_i64", sc.encode_i64(x), full.encode_i64(x)) { eqv!("decode_i64", sc.decode_i64(&bytes), full.decode_i64(&bytes)); } }
+            }
+            Ok(()) });
+        ctx.case("endian/convert_io", "gap_ctor_shortcuts", idx, |c| { let raw = bnd_u64(&mut c.rng); let raw2 = c.rng.next(); c.input("raw", &[raw.to_le_bytes(), raw2.to_le_bytes()].concat()); c.set_nontrivial(true);
+            endian_ctor!(c, u8, raw); endian_ctor!(c, u16, raw); endian_ctor!(c, i16, raw2); endian_ctor!(c, u32, raw); endian_ctor!(c, i32, raw2); endian_ctor!(c, u64, raw); endian_ctor!(c, i64, raw2); endian_ctor!(c, usize, raw); endian_ctor!(c, u128, ((raw as u128) << 64) | raw2 as u128);
+            Ok(()) });
+    }
+    // ---- DataInput / DataOutput accessors -------------------------------------------------------------------------
+    for idx in 0..ctx.n(250, 8000) as u64 {
+        ctx.case("din/slice", "gap_remaining_slice", idx, |c| { let items = gen_items(&mut c.rng); let (m, ends) = record_items(c, &items);
+            let mut i = SliceDataInput::new(&m); ensure!(i.remaining_slice() == &m[..], "remaining_slice", "before the first read");
+            for (k, it) in items.iter().enumerate() { let got = read_one(&mut i, it)?; ensure!(got == *it, "roundtrip_mismatch", "item {k}: read {} want {}", abbrev_item(&got), abbrev_item(it));
+                ensure!(i.remaining_slice() == &m[ends[k]..], "remaining_slice", "after item {k} ({}) remaining_slice() has {} bytes, the rest of the stream has {}", abbrev_item(it), i.remaining_slice().len(), m.len() - ends[k]); c.ev(2); }
+            Ok(()) });
+        ctx.case("din/reader", "gap_into_inner", idx, |c| { let items = gen_items(&mut c.rng); let (m, ends) = record_items(c, &items); let cut = c.rng.usize_below(items.len() + 1); let used = if cut == 0 { 0 } else { ends[cut - 1] }; c.input_str("cut", &cut.to_string());
+            // the reader hands back the inner stream positioned exactly after the decoded values: a second reader continues with the next value
+            if c.rng.bool() { let mut i = ReaderDataInput::new(Cursor::new(m.clone())); for (k, it) in items[..cut].iter().enumerate() { let got = read_one(&mut i, it)?; ensure!(got == *it, "roundtrip_mismatch", "item {k}"); }
+                ensure!(i.pos() == used as u64, "consumed_len", "pos() {} want {used}", i.pos()); let cur = i.into_inner(); ensure!(cur.position() == used as u64, "consumed_len", "into_inner(): inner reader at {} after {cut} items ending at {used}", cur.position());
+                let mut j = ReaderDataInput::new(cur); for (k, it) in items[cut..].iter().enumerate() { let got = read_one(&mut j, it)?; ensure!(got == *it, "concat_mismatch", "item {} read through a second reader over into_inner(): {} want {}", cut + k, abbrev_item(&got), abbrev_item(it)); c.ev(1); }
+                ensure!(j.pos() as usize == m.len() - used, "consumed_len", "second reader pos()"); }
+            else { c.tag("inner_short_reads"); let mx = 1 + c.rng.usize_below(6); let f = c.rng.fork(); let mut i = zipora::io::from_reader(Chunked::new(&m, mx, f)); for (k, it) in items[..cut].iter().enumerate() { let got = read_one(&mut i, it)?; ensure!(got == *it, "roundtrip_mismatch", "item {k}"); }
+                let ch = i.into_inner(); ensure!(ch.pos == used, "consumed_len", "into_inner(): inner reader consumed {} bytes for {cut} items ending at {used}", ch.pos);
+                let mut j = ReaderDataInput::new(ch); for (k, it) in items[cut..].iter().enumerate() { let got = read_one(&mut j, it)?; ensure!(got == *it, "concat_mismatch", "item {} through a second reader: {} want {}", cut + k, abbrev_item(&got), abbrev_item(it)); c.ev(1); } }
+            c.ev(1); Ok(()) });
+        ctx.case("dout/vec", "gap_clear_reserve", idx, |c| { let items = gen_items(&mut c.rng); let (_, _) = record_items(c, &items); let cut = c.rng.usize_below(items.len() + 1); let res = *c.rng.pick(&[0usize, 1, 7, 64, 5000]); c.input_str("cut_reserve", &format!("{cut},{res}"));
+            let (a, b) = items.split_at(cut); let (ma, mb) = (model_bytes(a).0, model_bytes(b).0);
+            let mut o = zipora::io::to_vec(); ensure!(o.is_empty() && o.len() == 0, "is_empty", "new output not empty"); write_items(c, &mut o, a, 0)?; ensure!(o.is_empty() == ma.is_empty() && o.as_slice() == &ma[..], "bytes_vs_model", "first part: is_empty()={} len {} want {}", o.is_empty(), o.len(), ma.len());
+            o.clear(); ensure!(o.is_empty() && o.len() == 0 && o.as_slice().is_empty(), "clear", "after clear(): len {}", o.len()); o.reserve(res); ensure!(o.is_empty(), "reserve", "reserve({res}) changed the content");
+            write_items(c, &mut o, b, 0)?; ensure!(o.as_slice() == &mb[..] && o.is_empty() == mb.is_empty(), "bytes_vs_model", "after clear() the output holds {} bytes, the second part encodes to {}", o.len(), mb.len());
+            o.reserve(res); ensure!(o.as_slice() == &mb[..], "reserve", "reserve({res}) changed the content"); let v = o.into_vec(); ensure!(v == mb, "bytes_vs_model", "into_vec"); c.ev(5); Ok(()) });
+        ctx.case("dout/writer", "gap_bytes_written", idx, |c| { let items = gen_items(&mut c.rng); let (m, ends) = record_items(c, &items);
+            let mut o = WriterDataOutput::new(Vec::new()); ensure!(o.bytes_written() == 0u64, "writer_bytes_written", "fresh writer");
+            for k in 0..items.len() { let base = if k == 0 { 0 } else { ends[k - 1] }; write_items(c, &mut o, &items[k..k + 1], base as u64)?; let bw: u64 = WriterDataOutput::bytes_written(&o); ensure!(bw == ends[k] as u64, "writer_bytes_written", "after item {k} bytes_written()={bw} want {}", ends[k]); c.ev(1); }
+            let v = o.into_inner(); ensure!(v == m, "bytes_vs_model", "WriterDataOutput<Vec> bytes differ from model"); Ok(()) });
+    }
+    for idx in 0..ctx.n(100, 2500) as u64 {
+        ctx.case("dout/file", "gap_to_file_sync_all", idx, |c| { let items = gen_items(&mut c.rng); let (m, _) = record_items(c, &items); let dir = tmpd()?; let p = dir.path().join("f.bin");
+            if c.rng.bool() { let pl = 1 + c.rng.usize_below(5000); std::fs::write(&p, c.rng.bytes(pl)).map_err(inconc)?; c.note("precreated_longer_file", 1); } // create truncates
+            let mut o = zok!("to_file", zipora::io::to_file(&p)); ensure!(FileDataOutput::bytes_written(&o) == 0, "writer_bytes_written", "fresh file output reports {}", FileDataOutput::bytes_written(&o));
+            write_items(c, &mut o, &items, 0)?; zok!("sync_all", o.sync_all()); ensure!(FileDataOutput::bytes_written(&o) == m.len() as u64, "writer_bytes_written", "bytes_written() {} want {}", FileDataOutput::bytes_written(&o), m.len());
+            let got = std::fs::read(&p).map_err(inconc)?; ensure!(got == m, "bytes_vs_model", "file content ({} bytes) differs from model ({} bytes)", got.len(), m.len()); drop(o); c.ev(2); Ok(()) });
+        ctx.case("din/mmap", "gap_accessors", idx, |c| { let items = gen_items(&mut c.rng); let (m, ends) = record_items(c, &items); let dir = tmpd()?; let p = dir.path().join("i.bin"); std::fs::write(&p, &m).map_err(inconc)?;
+            let mut i = match catch(|| MmapDataInput::open(&p)) { Ok(Ok(i)) => i, Ok(Err(e)) => { if m.is_empty() { c.note("ctor_refused_empty", 1); c.set_nontrivial(false); return Ok(()); } return Err(bad("MmapDataInput::open_err", format!("{e}"))); } Err(pn) => return Err(bad(&pn.class(), format!("open panicked at {}: {}", pn.loc, pn.msg))) };
+            ensure!(i.is_empty() == m.is_empty() && i.len() == m.len() && i.pos() == 0, "len", "is_empty()/len()/pos() of a fresh input"); ensure!(i.as_slice() == &m[..] && i.remaining_slice() == &m[..], "stream_bytes", "as_slice()/remaining_slice() of a fresh input differ from the file");
+            for (k, it) in items.iter().enumerate() { let got = read_one(&mut i, it)?; ensure!(got == *it, "roundtrip_mismatch", "item {k}: read {} want {}", abbrev_item(&got), abbrev_item(it));
+                ensure!(i.pos() == ends[k], "consumed_len", "after item {k} pos()={} want {}", i.pos(), ends[k]); ensure!(i.remaining_slice() == &m[ends[k]..] && i.as_slice() == &m[..], "remaining_slice", "after item {k}: remaining_slice() has {} bytes want {}", i.remaining_slice().len(), m.len() - ends[k]); c.ev(3); }
+            Ok(()) });
+        // ---- adaptive mmap input: peek / zero-copy reads, pattern constructor --------------------------------------
+        ctx.case("din/mmapped_input", "gap_peek_zero_copy", idx, |c| {
+            let l = if idx % 20 == 7 { (1 << 20) - 2 + c.rng.usize_below(5000) } else { match c.rng.below(8) { 0 => 0, 1 => c.rng.usize_below(64), 2 => 4096 - c.rng.usize_below(3), 3 => 4097 + c.rng.usize_below(3), 4 | 5 => 4097 + c.rng.usize_below(12000), 6 => 5000 + c.rng.usize_below(5000), _ => c.rng.usize_below(4097) } };
+            let k = c.rng.below(gen::BYTE_KINDS as u64) as u32; let data = gen::bytes_kind(&mut c.rng, k, l); c.input("data", &data); c.set_nontrivial(l >= 2);
+            let pat = *c.rng.pick(&[AccessPattern::Sequential, AccessPattern::Random, AccessPattern::Mixed, AccessPattern::Unknown]); c.input_str("pattern", &format!("{pat:?}"));
+            let dir = tmpd()?; let p = dir.path().join("i.bin"); std::fs::write(&p, &data).map_err(inconc)?;
+            let mut i = zok!("from_path_with_pattern", MemoryMappedInput::from_path_with_pattern(&p, pat)); let st = i.strategy(); c.note(&format!("strategy:{st:?}"), 1); let buffered = st == InputStrategy::BufferedIO;
+            ensure!(i.len() == l && i.is_empty() == (l == 0) && i.remaining() == l && i.position() == 0, "len", "len()/is_empty()/remaining() of a fresh input over {l} bytes");
+            let mut pos = 0usize; let nops = 4 + c.rng.usize_below(30); let ops: Vec<(u64, u64)> = (0..nops).map(|_| (c.rng.below(7), c.rng.next())).collect(); c.input_str("ops", &format!("{:?}", ops.iter().map(|o| o.0).collect::<Vec<_>>()));
+            for (oi, &(op, r)) in ops.iter().enumerate() { let avail = l - pos; let len = if r % 5 == 0 { avail } else { ((r >> 8) as usize % (avail + 1)).min(1 + (r >> 40) as usize % 300) };
+                match op {
+                    0 | 1 => { let zc = op == 1; let got = match catch(|| if zc { i.peek_slice_zero_copy(len).map(|s| s.to_vec()) } else { i.peek_slice(len) }) { Ok(g) => g, Err(pn) => return Err(bad(&pn.class(), format!("peek panicked at {}: {}", pn.loc, pn.msg))) };
+                        match got { Ok(v) => { ensure!(v[..] == data[pos..pos + len], "stream_bytes", "op {oi} peek_slice{}({len}) at {pos}: bytes differ from the file", if zc { "_zero_copy" } else { "" }); c.note("peek_ok", 1); }
+                            Err(e) => { ensure!(buffered, "peek_err", "op {oi} peek of {len} in-bounds bytes at {pos} of {l} failed under {st:?}: {e}"); c.note("peek_refused_buffered_io", 1); } }
+                        ensure!(i.position() == pos, "peek_moved_position", "op {oi}: peek moved the position from {pos} to {}", i.position()); }
+                    2 | 3 => { let got = match catch(|| i.read_slice_zero_copy(len).map(|s| s.to_vec())) { Ok(g) => g, Err(pn) => return Err(bad(&pn.class(), format!("read_slice_zero_copy panicked at {}: {}", pn.loc, pn.msg))) };
+                        match got { Ok(v) => { ensure!(v[..] == data[pos..pos + len], "stream_bytes", "op {oi} read_slice_zero_copy({len}) at {pos}: bytes differ from the file"); pos += len; c.note("zero_copy_ok", 1); }
+                            Err(e) => { ensure!(buffered, "read_err", "op {oi} read_slice_zero_copy({len}) in bounds at {pos} of {l} failed under {st:?}: {e}"); c.note("zero_copy_refused_buffered_io", 1); } } }
+                    4 => { let v = zok!("read_slice", i.read_slice(len)); ensure!(v[..] == data[pos..pos + len], "stream_bytes", "op {oi} read_slice({len}) at {pos} differs"); pos += len; }
+                    5 => { if avail > 0 { let b = zok!("read_u8", i.read_u8()); ensure!(b == data[pos], "stream_bytes", "op {oi} read_u8 at {pos}"); pos += 1; } }
+                    _ => { let x = (r >> 8) as usize % (l + 1); zok!("seek", i.seek(x)); pos = x; }
+                }
+                ensure!(i.position() == pos && i.remaining() == l - pos, "consumed_len", "op {oi} (kind {op}): position {} want {pos}, remaining {} want {}", i.position(), i.remaining(), l - pos); c.ev(2);
+            }
+            Ok(()) });
+        // ---- MemoryMappedOutput::open: patch an existing file in place -----------------------------------------------
+        ctx.case("dout/mmap", "gap_open_seek", idx, |c| { let items = gen_items(&mut c.rng); let (m, _) = record_items(c, &items);
+            let bl = match c.rng.below(4) { 0 => *c.rng.pick(&[1usize, 2, 16, 100, 4096]), 1 => m.len() + 1 + c.rng.usize_below(200), 2 => (m.len() / 2).max(1), _ => 1 + c.rng.usize_below(6000) }; let bg = c.rng.bytes(bl); let pos = if c.rng.chance(1, 4) { bl } else { c.rng.usize_below(bl + 1) }; c.input_str("bg_len_pos", &format!("{bl},{pos}"));
+            let dir = tmpd()?; let p = dir.path().join("m.bin"); std::fs::write(&p, &bg).map_err(inconc)?;
+            let mut o = match catch(|| MemoryMappedOutput::open(&p)) { Ok(Ok(o)) => o, Ok(Err(e)) => { c.note("ctor_refused", 1); c.log(format!("open refused: {e}")); c.set_nontrivial(false); return Ok(()); } Err(pn) => return Err(bad(&pn.class(), format!("open panicked at {}: {}", pn.loc, pn.msg))) };
+            ensure!(o.capacity() == bl && o.position() == 0 && o.remaining() == bl, "open_meta", "open() of a {bl}-byte file: capacity {} position {} remaining {}", o.capacity(), o.position(), o.remaining());
+            zok!("seek", o.seek(pos)); ensure!(o.position() == pos && o.remaining() == bl - pos, "writer_position", "after seek({pos}): position {} remaining {}", o.position(), o.remaining());
+            write_items(c, &mut o, &items, pos as u64)?; let endp = pos + m.len();
+            ensure!(o.position() == endp && o.capacity() >= endp.max(bl) && o.remaining() == o.capacity() - endp, "writer_position", "after the script: position {} want {endp}, capacity {}, remaining {}", o.position(), o.capacity(), o.remaining());
+            let mut model = bg.clone(); if model.len() < endp { model.resize(endp, 0); } model[pos..endp].copy_from_slice(&m);
+            let p2 = c.rng.usize_below(endp + 1); let pl = c.rng.usize_below(9); let patch = c.rng.bytes(pl); zok!("seek", o.seek(p2)); zok!("write_bytes", o.write_bytes(&patch)); let e2 = p2 + patch.len(); if model.len() < e2 { model.resize(e2, 0); } model[p2..e2].copy_from_slice(&patch);
+            ensure!(o.position() == e2, "writer_position", "after seek({p2}) + {} bytes: position {}", patch.len(), o.position()); zok!("flush", DataOutput::flush(&mut o));
+            let trunc = c.rng.bool() && e2 > 0; if trunc { zok!("truncate", o.truncate()); ensure!(o.capacity() == e2 && o.remaining() == 0, "capacity", "after truncate at {e2}: capacity {}", o.capacity()); } drop(o);
+            let got = std::fs::read(&p).map_err(inconc)?;
+            if trunc { ensure!(got[..] == model[..e2], "bytes_vs_model", "truncated file ({} bytes) differs from the patched model prefix ({e2} bytes)", got.len()); }
+            else { ensure!(got.len() >= model.len() && got[..model.len()] == model[..], "bytes_vs_model", "file ({} bytes) differs from background patched at {pos} (+{}) and {p2} (+{}); first diff {:?}", got.len(), m.len(), patch.len(), got.iter().zip(&model).position(|(a, b)| a != b)); }
+            c.ev(3); Ok(()) });
+    }
+    // ---- range wrappers: inner access, end-position constructor, incremental multi-range -----------------------------
+    for idx in 0..ctx.n(300, 10000) as u64 {
+        ctx.case("range/reader", "gap_inner_access", idx, |c| { let data = stream_data(c, 3000); let l = data.len(); let start = c.rng.usize_below(l + 1); let len = c.rng.usize_below(l - start + 1); c.input_str("range", &format!("start={start} len={len}"));
+            let mut rd = zok!("new_and_seek", RangeReader::new_and_seek(Cursor::new(data.clone()), start as u64, len as u64));
+            ensure!(rd.end_position() == (start + len) as u64 && rd.start_position() == start as u64, "range_meta", "end_position {} want {}", rd.end_position(), start + len); let mut q = 0usize;
+            for _ in 0..(1 + c.rng.usize_below(12)) { let s = req_size(&mut c.rng, 16); let mut buf = vec![0u8; s]; let n = match catch(|| rd.read(&mut buf)) { Ok(Ok(n)) => n, Ok(Err(e)) => return Err(io_fail("read_err", "RangeReader::read", e)), Err(p) => return Err(bad(&p.class(), format!("read panicked at {}: {}", p.loc, p.msg))) };
+                ensure!(n <= s && n <= len - q, "read_overrun", "read({s}) at range offset {q} returned {n}"); if n == 0 { ensure!(q >= len, "premature_eof", "read({s}) returned 0 at range offset {q} of {len}"); } ensure!(buf[..n] == data[start + q..start + q + n], "stream_bytes", "read({s}) at range offset {q}: bytes differ"); q += n;
+                // an unbuffered range view consumes exactly the bytes it returns from the inner reader
+                ensure!(rd.get_ref().position() == (start + q) as u64 && rd.get_mut().position() == (start + q) as u64, "inner_position", "inner reader at {} after {q} range bytes from {start}", rd.get_ref().position());
+                let pr = rd.progress(); let want = if len == 0 { 1.0 } else { q as f64 / len as f64 }; ensure!((pr - want).abs() < 1e-9, "progress", "progress() {pr} want {want}"); c.ev(3); }
+            let mut inner = rd.into_inner(); ensure!(inner.position() == (start + q) as u64, "inner_position", "into_inner(): inner at {} want {}", inner.position(), start + q);
+            let mut rest = Vec::new(); inner.read_to_end(&mut rest).map_err(|e| io_fail("read_err", "inner read_to_end", e))?; ensure!(rest[..] == data[start + q..], "stream_bytes", "bytes left in the inner reader after into_inner() are not the rest of the stream"); c.ev(1); Ok(()) });
+        ctx.case("range/writer", "gap_with_range", idx, |c| { let bg = stream_data(c, 1500); let l = bg.len(); let start = c.rng.usize_below(l + 1); let len = c.rng.usize_below(l + 10); c.input_str("range", &format!("start={start} len={len}"));
+            let mut cur = Cursor::new(bg.clone()); cur.set_position(start as u64); let mut w = RangeWriter::with_range(cur, start as u64, (start + len) as u64); let mut model = bg.clone(); let mut q = 0usize;
+            ensure!(w.start_position() == start as u64 && w.end_position() == (start + len) as u64 && w.range_length() == len as u64 && w.remaining() == len as u64 && w.current_position() == start as u64, "range_meta", "with_range({start},{}): start {} end {} length {}", start + len, w.start_position(), w.end_position(), w.range_length());
+            for _ in 0..(1 + c.rng.usize_below(15)) { let s = req_size(&mut c.rng, 16); let chunk = c.rng.bytes(s);
+                let n = match catch(|| w.write(&chunk)) { Ok(Ok(n)) => n, Ok(Err(e)) => return Err(io_fail("write_err", "RangeWriter::write", e)), Err(p) => return Err(bad(&p.class(), format!("write panicked at {}: {}", p.loc, p.msg))) };
+                ensure!(n == s.min(len - q), "write_count", "write({s}) at range offset {q} of {len} accepted {n}"); if n > 0 { if model.len() < start + q + n { model.resize(start + q + n, 0); } model[start + q..start + q + n].copy_from_slice(&chunk[..n]); } q += n;
+                ensure!(w.get_ref().get_ref()[..] == model[..], "stream_bytes", "inner content (get_ref) after {q} range bytes differs from model"); ensure!(w.get_mut().position() == (start + q) as u64, "inner_position", "inner writer at {} want {}", w.get_mut().position(), start + q);
+                ensure!(w.end_position() == (start + len) as u64 && w.range_length() == len as u64 && w.start_position() == start as u64, "range_meta", "range bounds changed by a write"); c.ev(3); }
+            let got = w.into_inner().into_inner(); ensure!(got == model, "stream_bytes", "inner content after ranged writes differs from model (len {} vs {})", got.len(), model.len()); Ok(()) });
+        ctx.case("range/multi", "gap_add_range", idx, |c| { let data = stream_data(c, 2000); let l = data.len(); let k = c.rng.usize_below(8);
+            let ranges: Vec<(u64, u64)> = (0..k).map(|_| { let a = c.rng.usize_below(l + 1); let b = if c.rng.chance(1, 6) { a } else { a + c.rng.usize_below(l - a + 1) }; (a as u64, b as u64) }).collect(); let k1 = c.rng.usize_below(k + 1); let k2 = k1 + c.rng.usize_below(k - k1 + 1); c.input_str("ranges", &format!("{ranges:?} ctor {k1} before_read {k2}"));
+            // ranges given to new(), added before the first read, and added while reading: one stream == the concatenation in order
+            let want: Vec<u8> = ranges.iter().flat_map(|&(a, b)| data[a as usize..b as usize].to_vec()).collect();
+            let mut rd = MultiRangeReader::new(Cursor::new(data.clone()), ranges[..k1].to_vec()); for &(a, b) in &ranges[k1..k2] { rd.add_range(a, b); }
+            ensure!(rd.current_range() == ranges[..k2].first().copied(), "range_meta", "current_range() before the first read = {:?}", rd.current_range());
+            ensure!(rd.total_length() == ranges[..k2].iter().map(|r| r.1 - r.0).sum::<u64>(), "range_meta", "total_length after add_range");
+            let mut got = Vec::new(); let first_phase = c.rng.usize_below(6); let mut hit_eof = false;
+            for _ in 0..first_phase { let s = req_size(&mut c.rng, 8); let mut buf = vec![0u8; s]; let n = match catch(|| rd.read(&mut buf)) { Ok(Ok(n)) => n, Ok(Err(e)) => return Err(io_fail("read_err", "MultiRangeReader::read", e)), Err(p) => return Err(bad(&p.class(), format!("read panicked at {}: {}", p.loc, p.msg))) }; if n == 0 { hit_eof = true; break; } got.extend_from_slice(&buf[..n]); }
+            if hit_eof && k2 < k { c.note("ranges_added_after_eof", 1); } for &(a, b) in &ranges[k2..] { rd.add_range(a, b); } ensure!(rd.total_length() == want.len() as u64, "range_meta", "total_length {} want {}", rd.total_length(), want.len());
+            if let Some(cr) = rd.current_range() { ensure!(ranges.contains(&cr), "range_meta", "current_range() {cr:?} is not one of the ranges"); }
+            let mut guard = 0; loop { let s = req_size(&mut c.rng, 8); let mut buf = vec![0u8; s]; let n = match catch(|| rd.read(&mut buf)) { Ok(Ok(n)) => n, Ok(Err(e)) => return Err(io_fail("read_err", "MultiRangeReader::read", e)), Err(p) => return Err(bad(&p.class(), format!("read panicked at {}: {}", p.loc, p.msg))) };
+                if n == 0 { break; } got.extend_from_slice(&buf[..n]); guard += 1; c.ev(1); ensure!(got.len() <= want.len() && guard < 100000, "read_overrun", "produced more than the ranges contain"); }
+            ensure!(got == want, "stream_bytes", "stream over incrementally added ranges ({} bytes) differs from the concatenated ranges ({} bytes) {ranges:?} (ctor {k1}, before first read {k2})", got.len(), want.len()); Ok(()) });
+    }
+    // ---- buffered / zero-copy wrappers: default constructors, inner access, validators over the buffered bytes -------
+    for idx in 0..ctx.n(400, 12000) as u64 {
+        ctx.case("sbuf/reader", "gap_inner_access", idx, |c| { let data = utf8ish_data(c, 5000); let l = data.len();
+            let b = *c.rng.pick(&[4usize, 8, 16, 17, 64, 255, 256, 1000, 1024, 4096]); let dflt = c.rng.chance(1, 5); c.input_str("cap", &if dflt { "default".to_string() } else { b.to_string() });
+            let cfg = StreamBufferConfig { initial_capacity: b, max_capacity: 2 << 20, growth_factor: 2.0, page_alignment: 1, use_secure_pool: false, bulk_read_threshold: *c.rng.pick(&[8192usize, b, 1]), enable_readahead: c.rng.bool(), readahead_multiplier: 2 };
+            let mut rd = zok!("StreamBufferedReader ctor", if dflt { StreamBufferedReader::new(Cursor::new(data.clone())) } else { StreamBufferedReader::with_config(Cursor::new(data.clone()), cfg) }); let cap = rd.capacity(); let mut p = 0usize;
+            for oi in 0..(1 + c.rng.usize_below(14)) { let s = req_size(&mut c.rng, cap.min(600)).min(2 * cap + 8); let mut buf = vec![0u8; s]; let n = match catch(|| rd.read(&mut buf)) { Ok(Ok(n)) => n, Ok(Err(e)) => return Err(io_fail("read_err", &format!("op {oi} read({s}) at {p}"), e)), Err(pn) => return Err(bad(&pn.class(), format!("read panicked at {}: {}", pn.loc, pn.msg))) };
+                ensure!(n <= s && n <= l - p && buf[..n] == data[p..p + n], "stream_bytes", "op {oi} read({s}) at {p} returned {n}: bytes differ"); if n == 0 { ensure!(p == l, "premature_eof", "op {oi} read({s}) returned 0 at {p} of {l}"); } p += n;
+                let bu = rd.buffer_usage(); ensure!(rd.has_data_in_buffer() == (bu > 0), "has_data_in_buffer", "has_data_in_buffer()={} buffer_usage()={bu}", rd.has_data_in_buffer());
+                // bytes handed out + bytes still buffered == bytes taken from the inner reader
+                ensure!(rd.get_ref().position() == (p + bu) as u64 && rd.get_mut().position() == (p + bu) as u64 && rd.total_read() == (p + bu) as u64, "inner_position", "op {oi}: inner reader at {}, delivered {p} + buffered {bu}, total_read {}", rd.get_ref().position(), rd.total_read());
+                let v = zok!("validate_utf8_buffered", rd.validate_utf8_buffered()); let buffered: Vec<u8> = if bu > 0 { rd.fill_buf().map_err(|e| io_fail("read_err", "fill_buf", e))?.to_vec() } else { Vec::new() };
+                ensure!(buffered.len() == bu && buffered[..] == data[p..p + bu], "stream_bytes", "op {oi}: buffered bytes are not the next {bu} bytes of the stream"); let want = std::str::from_utf8(&buffered).is_ok(); if !want { c.note("buffered_invalid_utf8", 1); }
+                ensure!(v == want, "validate_utf8_buffered", "op {oi}: validate_utf8_buffered()={v} but the {bu} buffered bytes at {p} are{} valid UTF-8", if want { "" } else { " not" }); c.ev(4); }
+            let bu = rd.buffer_usage(); let mut inner = rd.into_inner(); ensure!(inner.position() == (p + bu) as u64, "inner_position", "into_inner(): inner at {} want {}", inner.position(), p + bu);
+            let mut rest = Vec::new(); inner.read_to_end(&mut rest).map_err(|e| io_fail("read_err", "inner read_to_end", e))?; ensure!(rest[..] == data[p + bu..], "stream_bytes", "bytes left in the inner reader after into_inner() are not the rest of the stream"); Ok(()) });
+        ctx.case("sbuf/writer", "gap_inner_access", idx, |c| { c.set_nontrivial(true); let dflt = c.rng.chance(1, 3); let b = *c.rng.pick(&[4usize, 8, 16, 17, 64, 255, 256, 1000, 4096]); let nops = 2 + c.rng.usize_below(30); c.input_str("cap_nops", &format!("{},{nops}", if dflt { "default".to_string() } else { b.to_string() }));
+            let cfg = StreamBufferConfig { initial_capacity: b, max_capacity: 2 << 20, growth_factor: 2.0, page_alignment: 1, use_secure_pool: false, bulk_read_threshold: 8192, enable_readahead: false, readahead_multiplier: 2 };
+            let mut w = zok!("StreamBufferedWriter ctor", if dflt { StreamBufferedWriter::new(Vec::new()) } else { StreamBufferedWriter::with_config(Vec::new(), cfg) }); let cap = w.capacity(); let mut model: Vec<u8> = Vec::new();
+            for oi in 0..nops { match c.rng.below(8) {
+                    0 => { let x = c.rng.next() as u8; zok!("write_byte_fast", w.write_byte_fast(x)); model.push(x); }
+                    1 => { if let Err(e) = w.flush() { return Err(io_fail("write_err", "flush", e)); } ensure!(w.get_ref()[..] == model[..], "flush_accounting", "op {oi}: after flush the inner writer holds {} of {} bytes", w.get_ref().len(), model.len()); }
+                    _ => { let s = req_size(&mut c.rng, cap.min(600)); let chunk = c.rng.bytes(s); if let Err(e) = w.write_all(&chunk) { return Err(io_fail("write_err", &format!("op {oi} write_all({s})"), e)); } model.extend_from_slice(&chunk); } }
+                // bytes that reached the inner writer + bytes still buffered == bytes written, in order
+                let il = w.get_ref().len(); ensure!(il <= model.len() && w.get_ref()[..] == model[..il], "stream_bytes", "op {oi}: the {il} bytes in the inner writer (get_ref) are not a prefix of the {} bytes written", model.len());
+                ensure!(il + w.buffer_usage() == model.len() && w.get_mut().len() == il && w.total_written() == il as u64, "inner_position", "op {oi}: inner {il} + buffered {} != written {} (total_written {})", w.buffer_usage(), model.len(), w.total_written()); c.ev(2); }
+            let got = match w.into_inner() { Ok(v) => v, Err(e) => return Err(io_fail("write_err", "into_inner", e)) }; ensure!(got == model, "stream_bytes", "bytes reaching the inner writer ({}) differ from the bytes written ({})", got.len(), model.len()); Ok(()) });
+        ctx.case("zc/reader", "gap_inner_access", idx, |c| { let data = utf8ish_data(c, 5000); let l = data.len(); let dflt = c.rng.chance(1, 5); let cap = if dflt { 65536 } else { *c.rng.pick(&[4usize, 8, 16, 17, 64, 255, 256, 1000, 4096]) }; c.input_str("cap", &if dflt { "default".to_string() } else { cap.to_string() });
+            let mut rd = zok!("ZeroCopyReader ctor", if dflt { ZeroCopyReader::new(Cursor::new(data.clone())) } else { ZeroCopyReader::with_capacity(Cursor::new(data.clone()), cap) }); let mut p = 0usize;
+            for oi in 0..(1 + c.rng.usize_below(14)) { let avail = l - p;
+                match c.rng.below(4) {
+                    0 | 1 => { let s = req_size(&mut c.rng, cap.min(600)); let mut buf = vec![0u8; s]; let n = match catch(|| rd.read(&mut buf)) { Ok(Ok(n)) => n, Ok(Err(e)) => return Err(io_fail("read_err", &format!("op {oi} read({s}) at {p}"), e)), Err(pn) => return Err(bad(&pn.class(), format!("read panicked at {}: {}", pn.loc, pn.msg))) };
+                        ensure!(n <= s && n <= avail && buf[..n] == data[p..p + n], "stream_bytes", "op {oi} read({s}) at {p} returned {n}: bytes differ"); if n == 0 { ensure!(avail == 0, "premature_eof", "op {oi} read({s}) returned 0 at {p} of {l}"); } p += n; }
+                    2 => { let s = req_size(&mut c.rng, cap.min(600)).min(cap); let v = zok!("peek", rd.peek(s).map(|x| x.to_vec())); ensure!(v.len() == s.min(avail) && v[..] == data[p..p + v.len()], "stream_bytes", "op {oi} peek({s}) at {p} with {avail} left returned {} bytes", v.len()); }
+                    _ => { let k = c.rng.usize_below(avail.min(2 * cap + 20) + 1); zok!("skip_bytes", rd.skip_bytes(k)); p += k; } }
+                let za = rd.zc_available(); ensure!(rd.get_ref().position() == (p + za) as u64 && rd.get_mut().position() == (p + za) as u64, "inner_position", "op {oi}: inner reader at {}, delivered {p} + buffered {za}", rd.get_ref().position());
+                let buffered = zok!("peek", rd.peek(za).map(|x| x.to_vec())); ensure!(buffered.len() == za && buffered[..] == data[p..p + za], "stream_bytes", "op {oi}: the {za} buffered bytes are not the next bytes of the stream"); ensure!(rd.zc_available() == za, "zc_available", "peek(zc_available()) refilled the buffer");
+                let want = std::str::from_utf8(&buffered).is_ok(); if !want { c.note("buffered_invalid_utf8", 1); } let v = zok!("validate_utf8_buffer", rd.validate_utf8_buffer()); ensure!(v == want, "validate_utf8_buffer", "op {oi}: validate_utf8_buffer()={v} but the {za} buffered bytes at {p} are{} valid UTF-8", if want { "" } else { " not" });
+                let crc = zok!("checksum_buffer_crc32c", rd.checksum_buffer_crc32c()); let both = zok!("validate_and_checksum", rd.validate_and_checksum()); ensure!(both == (v, crc), "validate_and_checksum", "op {oi}: validate_and_checksum()={both:?} but the separate calls give ({v}, {crc:#x})");
+                // which CRC-32C convention (and the value for an empty buffer) is not pinned down by the docs: recorded only
+                if za > 0 { c.note(if crc == crc32c_model(&buffered) { "crc32c_is_castagnoli" } else { "crc32c_other_convention" }, 1); } c.ev(5); }
+            let za = rd.zc_available(); let mut inner = rd.into_inner(); ensure!(inner.position() == (p + za) as u64, "inner_position", "into_inner(): inner at {} want {}", inner.position(), p + za);
+            let mut rest = Vec::new(); inner.read_to_end(&mut rest).map_err(|e| io_fail("read_err", "inner read_to_end", e))?; ensure!(rest[..] == data[p + za..], "stream_bytes", "bytes left in the inner reader after into_inner() are not the rest of the stream"); Ok(()) });
+        ctx.case("zc/writer", "gap_inner_access", idx, |c| { c.set_nontrivial(true); let dflt = c.rng.chance(1, 3); let cap = if dflt { 65536 } else { *c.rng.pick(&[4usize, 8, 16, 17, 64, 255, 256, 1000, 4096]) }; let nops = 2 + c.rng.usize_below(30); c.input_str("cap_nops", &format!("{},{nops}", if dflt { "default".to_string() } else { cap.to_string() }));
+            let mut w = zok!("ZeroCopyWriter ctor", if dflt { ZeroCopyWriter::new(Vec::new()) } else { ZeroCopyWriter::with_capacity(Vec::new(), cap) }); let mut model: Vec<u8> = Vec::new();
+            for oi in 0..nops { match c.rng.below(8) {
+                    0 => { if let Err(e) = w.flush() { return Err(io_fail("write_err", "flush", e)); } ensure!(w.get_ref()[..] == model[..], "flush_accounting", "op {oi}: after flush the inner writer holds {} of {} bytes", w.get_ref().len(), model.len()); }
+                    1 | 2 => { let len = req_size(&mut c.rng, cap.min(600)).min(cap); let k = c.rng.usize_below(len + 1); let fill = c.rng.bytes(len); let some = zok!("zc_write", w.zc_write(len).map(|o| o.map(|s| { s.copy_from_slice(&fill); s.len() })));
+                        match some { Some(n) => { ensure!(n == len, "zc_write_len", "zc_write({len}) slice of {n}"); zok!("zc_commit", w.zc_commit(k)); model.extend_from_slice(&fill[..k]); } None => { ensure!(len > cap, "zc_write_none", "op {oi} zc_write({len}) = None with capacity {cap}"); } } }
+                    _ => { let s = req_size(&mut c.rng, cap.min(600)); let chunk = c.rng.bytes(s); if let Err(e) = w.write_all(&chunk) { return Err(io_fail("write_err", &format!("op {oi} write_all({s})"), e)); } model.extend_from_slice(&chunk); } }
+                let il = w.get_ref().len(); ensure!(il <= model.len() && w.get_ref()[..] == model[..il] && w.get_mut().len() == il, "stream_bytes", "op {oi}: the {il} bytes in the inner writer (get_ref) are not a prefix of the {} bytes written", model.len()); c.ev(1); }
+            let got = match w.into_inner() { Ok(v) => v, Err(e) => return Err(io_fail("write_err", "into_inner", e)) }; ensure!(got == model, "stream_bytes", "bytes reaching the inner writer ({}) differ from the bytes written ({})", got.len(), model.len()); Ok(()) });
+    }
+    for idx in 0..ctx.n(20, 500) as u64 {
+        ctx.case("zc/reader", "gap_new_default", idx, |c| { let dl = 1000 + c.rng.usize_below(200000); let data = c.rng.bytes(dl); c.input("data", &data); c.set_nontrivial(true); let cap = 64 * 1024; let ops = gen_zops(&mut c.rng, cap, true); c.input_str("ops", &format!("{ops:?}"));
+            let mut rd = zok!("ZeroCopyReader::new", ZeroCopyReader::new(Cursor::new(data.clone()))); drive_zc(c, &mut rd, &data, &ops, cap) });
+    }
+    // ---- serializer default constructors, Version::patch, VersionProxy::data_mut, migrations ------------------------
+    for idx in 0..ctx.n(150, 5000) as u64 {
+        ctx.case("complex/serializer", "gap_default_ctor", idx, |c| { type T = (u32, String, Option<Vec<i16>>); let n = 1 + c.rng.usize_below(4); let vals: Vec<T> = (0..n).map(|_| Arb::arb(&mut c.rng, 3)).collect(); c.input_str("values", &show(&vals)); c.set_nontrivial(true);
+            let s = ComplexTypeSerializer::default(); let r = ComplexTypeSerializer::new(ComplexTypeConfig::new());
+            let e = zok!("serialize_to_bytes", s.serialize_to_bytes(&vals[0])); ensure!(e == zok!("serialize_to_bytes", r.serialize_to_bytes(&vals[0])), "shortcut_vs_new", "default() and new(ComplexTypeConfig::new()) encode differently");
+            let d: T = match s.deserialize_from_bytes(&e) { Ok(d) => d, Err(er) => return Err(bad("decode_err", format!("default serializer: {er}"))) }; ensure!(d == vals[0], "roundtrip_mismatch", "default serializer: {}", show(&d));
+            let eb = zok!("serialize_batch", s.serialize_batch(&vals)); ensure!(eb == zok!("serialize_batch", r.serialize_batch(&vals)), "shortcut_vs_new", "batch encodings differ"); let db: Vec<T> = match s.deserialize_batch(&eb) { Ok(d) => d, Err(er) => return Err(bad("decode_err", format!("default serializer batch: {er}"))) }; ensure!(db == vals, "roundtrip_mismatch", "default serializer batch"); c.ev(4); Ok(()) });
+        ctx.case("sptr/serializer", "gap_default_ctor", idx, |c| { let a: Box<String> = Arb::arb(&mut c.rng, 2); let b: Rc<u64> = Arb::arb(&mut c.rng, 2); let av: Arc<Vec<u32>> = Arb::arb(&mut c.rng, 3); c.input_str("values", &show(&(&a, &b, &av))); c.set_nontrivial(true);
+            let s = SmartPtrSerializer::default(); let r = SmartPtrSerializer::new(SmartPtrConfig::new());
+            let e = zok!("serialize_to_bytes", s.serialize_to_bytes::<String, Box<String>>(&a)); ensure!(e == zok!("serialize_to_bytes", r.serialize_to_bytes::<String, Box<String>>(&a)), "shortcut_vs_new", "Box<String>: default() and new(SmartPtrConfig::new()) encode differently"); let d: Box<String> = zok!("deserialize_from_bytes", s.deserialize_from_bytes::<String, Box<String>>(&e)); ensure!(d == a, "roundtrip_mismatch", "Box<String>");
+            let e = zok!("serialize_to_bytes", s.serialize_to_bytes::<u64, Rc<u64>>(&b)); ensure!(e == zok!("serialize_to_bytes", r.serialize_to_bytes::<u64, Rc<u64>>(&b)), "shortcut_vs_new", "Rc<u64>"); let d: Rc<u64> = zok!("deserialize_from_bytes", s.deserialize_from_bytes::<u64, Rc<u64>>(&e)); ensure!(*d == *b, "roundtrip_mismatch", "Rc<u64>");
+            let e = zok!("serialize_to_bytes", s.serialize_to_bytes::<Vec<u32>, Arc<Vec<u32>>>(&av)); ensure!(e == zok!("serialize_to_bytes", r.serialize_to_bytes::<Vec<u32>, Arc<Vec<u32>>>(&av)), "shortcut_vs_new", "Arc<Vec<u32>>"); let d: Arc<Vec<u32>> = zok!("deserialize_from_bytes", s.deserialize_from_bytes::<Vec<u32>, Arc<Vec<u32>>>(&e)); ensure!(*d == *av, "roundtrip_mismatch", "Arc<Vec<u32>>"); c.ev(6); Ok(()) });
+        ctx.case("ver/version", "gap_patch_accessor", idx, |c| { let (ma, mi, pa) = (c.rng.below(256) as u16, c.rng.below(256) as u16, bnd_u64(&mut c.rng) as u16); let v = Version::new(ma, mi, pa); c.input_str("version", &format!("{v:?}")); c.set_nontrivial(true);
+            ensure!(v.patch() == pa && v.major() == ma && v.minor() == mi, "version_accessors", "Version::new({ma},{mi},{pa}) reports {}.{}.{}", v.major(), v.minor(), v.patch());
+            let back = Version::from_u32(v.to_u32()); ensure!(back.patch() == pa && back.major() == ma && back.minor() == mi, "roundtrip_mismatch", "from_u32(to_u32({v})) = {back}");
+            let mut o = VecDataOutput::new(); zok!("serialize", v.serialize(&mut o)); zok!("write_bytes", o.write_bytes(&SENT)); let e = o.into_vec(); let mut i = SliceDataInput::new(&e); let d = zok!("deserialize", Version::deserialize(&mut i));
+            ensure!(d.patch() == pa && d.major() == ma && d.minor() == mi, "roundtrip_mismatch", "deserialize(serialize({v})) = {d}"); ensure!(i.remaining() == SENT.len(), "consumed_len", "remaining {}", i.remaining()); c.ev(4); Ok(()) });
+        ctx.case("ver/proxy", "gap_data_mut", idx, |c| { let vs = [Version::new(1, 0, 0), Version::new(1, 1, 0), Version::new(1, 3, 0), Version::new(2, 0, 0)]; let cur = *c.rng.pick(&vs); let minv = *c.rng.pick(&vs);
+            let v0 = arb_string(&mut c.rng); let v1 = arb_string(&mut c.rng); let w0: Vec<u32> = Arb::arb(&mut c.rng, 2); let extra: u32 = Arb::arb(&mut c.rng, 0); c.input_str("setup", &format!("cur {cur} min {minv} {v0:?} -> {v1:?}; {w0:?} push {extra}")); c.set_nontrivial(true);
+            // the proxy serialises the data it holds now: replace / edit through data_mut(), then round-trip
+            let mut p = VersionProxy::new(v0.clone(), minv); *p.data_mut() = v1.clone(); ensure!(p.data() == &v1, "data_mut", "data() after assignment through data_mut()"); let mut p2 = VersionProxy::new(w0.clone(), minv); p2.data_mut().push(extra); let mut w1 = w0.clone(); w1.push(extra);
+            let m = VersionManager::new(cur); let present = cur >= minv; let mut o = VecDataOutput::new(); zok!("serialize_proxy", m.serialize_proxy(&p, &mut o)); let l1 = o.len(); zok!("serialize_proxy", m.serialize_proxy(&p2, &mut o)); let l2 = o.len(); zok!("write_bytes", o.write_bytes(&SENT)); let buf = o.into_vec(); let mut i = SliceDataInput::new(&buf);
+            let d: Option<VersionProxy<String>> = zok!("deserialize_proxy", m.deserialize_proxy(minv, &mut i)); ensure!(d.as_ref().map(|x| x.data().clone()) == if present { Some(v1.clone()) } else { None }, "roundtrip_mismatch", "proxy edited through data_mut(): got {:?} present={present}", d.as_ref().map(|x| show(x.data()))); ensure!(i.pos() == l1, "consumed_len", "proxy 1: reader at {} want {l1}", i.pos());
+            let d2: Option<VersionProxy<Vec<u32>>> = zok!("deserialize_proxy", m.deserialize_proxy(minv, &mut i)); ensure!(d2.map(|x| x.into_data()) == if present { Some(w1.clone()) } else { None }, "roundtrip_mismatch", "proxy 2 edited through data_mut()"); ensure!(i.pos() == l2, "consumed_len", "proxy 2: reader at {} want {l2}", i.pos());
+            let mut o = VecDataOutput::new(); zok!("serialize", <VersionProxy<String> as SerializableType>::serialize(&p, &mut o)); let e = o.into_vec(); let mut i = SliceDataInput::new(&e); let mut d = zok!("deserialize", <VersionProxy<String> as SerializableType>::deserialize(&mut i)); ensure!(d.data_mut() == &v1 && i.pos() == e.len(), "roundtrip_mismatch", "VersionProxy as SerializableType after data_mut()"); c.ev(5); Ok(()) });
+        ctx.case("ver/serializer", "gap_default_ctor", idx, |c| { let vals = vrec_vals(&mut c.rng); c.input_str("rec", &show(&vals)); c.set_nontrivial(true);
+            let w = VRec::<1, 3> { a: vals.0, b: vals.1.clone(), c: vals.2, tail: vals.3 }; let s = VersionedSerializer::default(); let r = VersionedSerializer::new(VersionConfig::new());
+            let e = zok!("serialize_to_bytes", s.serialize_to_bytes(&w)); ensure!(e == zok!("serialize_to_bytes", r.serialize_to_bytes(&w)), "shortcut_vs_new", "default() and new(VersionConfig::new()) encode differently");
+            let d: VRec<1, 3> = match catch(|| s.deserialize_from_bytes::<VRec<1, 3>>(&e)) { Ok(Ok(d)) => d, Ok(Err(er)) => return Err(bad("decode_err", format!("default serializer refused its own encoding: {er}"))), Err(p) => return Err(bad(&p.class(), format!("deserialize_from_bytes panicked at {}: {}", p.loc, p.msg))) }; ensure!(d == w, "roundtrip_mismatch", "default serializer: {}", show(&d)); c.ev(2); Ok(()) });
+        ctx.case("ver/migration", "gap_registry", idx, |c| { let data = arb_bytes(&mut c.rng); c.input("data", &data); c.set_nontrivial(true); let (v10, v11, v13, v20) = (Version::new(1, 0, 0), Version::new(1, 1, 0), Version::new(1, 3, 0), Version::new(2, 0, 0));
+            let f1 = |d: &[u8]| -> ZR<Vec<u8>> { let mut v = d.to_vec(); v.push(0xA1); Ok(v) }; let f2 = |d: &[u8]| -> ZR<Vec<u8>> { let mut v = vec![0xB2]; v.extend(d.iter().map(|b| b ^ 0x5A)); Ok(v) };
+            let mut reg = if c.rng.bool() { MigrationRegistry::new() } else { MigrationRegistry::default() }; reg.register_migration(v10, v11, f1); reg.register_migration(v11, v13, f2);
+            let same = zok!("migrate_data", reg.migrate_data(&data, v11, v11)); ensure!(same == data, "migration_identity", "migrate_data(from == to) changed the data");
+            let a = zok!("migrate_data", reg.migrate_data(&data, v10, v11)); ensure!(a == f1(&data).unwrap(), "migration_result", "registered 1.0.0 -> 1.1.0 migration: result differs from the registered function");
+            let b = zok!("migrate_data", reg.migrate_data(&data, v11, v13)); ensure!(b == f2(&data).unwrap(), "migration_result", "registered 1.1.0 -> 1.3.0 migration: result differs from the registered function");
+            let ab = zok!("migrate_data", reg.migrate_data(&data, v10, v13)); ensure!(ab == f2(&f1(&data).unwrap()).unwrap(), "migration_path", "1.0.0 -> 1.3.0 through 1.1.0: result differs from the composition of the registered functions");
+            let none = np!("migrate_data", reg.migrate_data(&data, v13, v20)); c.note(if none.is_err() { "no_path_refused" } else { "no_path_accepted" }, 1); c.ev(4); Ok(()) });
+        ctx.case("ver/migration", "gap_serializer", idx, |c| { let vals = vrec_vals(&mut c.rng); let newc = bnd_u64(&mut c.rng); c.input_str("rec", &show(&vals)); c.input_str("new_c", &newc.to_string()); c.set_nontrivial(true);
+            // a 1.1.0 writer leaves field c (since 1.3.0) absent; the registered 1.1.0 -> 1.3.0 migration rewrites the payload into what a 1.3.0 writer emits
+            // (absent marker of c replaced by a present c); the 1.3.0 reader must then decode a, b, the migrated c and the tail
+            let w = VRec::<1, 1> { a: vals.0, b: vals.1.clone(), c: vals.2, tail: vals.3 }; let mut s = VersionedSerializer::new(VersionConfig::flexible());
+            let mut fm = VersionManager::new(F_C); fm.register_field("c", F_C); let mut fo = VecDataOutput::new(); zok!("serialize_field", fm.serialize_field("c", &newc, &mut fo)); let enc_c = fo.into_vec();
+            let e = zok!("serialize_to_bytes", s.serialize_to_bytes(&w)); let ec = enc_c.clone();
+            s.register_migration(Version::new(1, 1, 0), F_C, move |d: &[u8]| -> ZR<Vec<u8>> { if d.len() < 3 || d[d.len() - 3] != 0 { return Err(zipora::error::ZiporaError::invalid_data("payload does not end with [absent c][tail]")); } let mut v = d[..d.len() - 3].to_vec(); v.extend_from_slice(&ec); v.extend_from_slice(&d[d.len() - 2..]); Ok(v) });
+            let got = match catch(|| s.deserialize_from_bytes::<VRec<1, 3>>(&e)) { Ok(Ok(g)) => g, Ok(Err(er)) => return Err(bad("decode_err", format!("1.3.0 reader with a registered 1.1.0 -> 1.3.0 migration refused the 1.1.0 stream: {er}"))), Err(p) => return Err(bad(&p.class(), format!("deserialize_from_bytes panicked at {}: {}", p.loc, p.msg))) };
+            let want = VRec::<1, 3> { a: vals.0, b: vals.1.clone(), c: newc, tail: vals.3 }; ensure!(got == want, "roundtrip_mismatch", "migrated record: got {} want {}", show(&got), show(&want)); c.ev(1);
+            // the same serializer still reads a same-version stream untouched by the migration
+            let w3 = VRec::<1, 3> { a: vals.0, b: vals.1.clone(), c: vals.2, tail: vals.3 }; let e3 = zok!("serialize_to_bytes", s.serialize_to_bytes(&w3)); let d3: VRec<1, 3> = zok!("deserialize_from_bytes", s.deserialize_from_bytes::<VRec<1, 3>>(&e3)); ensure!(d3 == w3, "roundtrip_mismatch", "same-version record through a serializer with migrations: {}", show(&d3)); c.ev(1); Ok(()) });
+    }
 }
